@@ -50,7 +50,7 @@ type casPlan struct {
 	ToggleFF   bool              `json:"toggle_fail_first_while_running,omitempty"` // the setting is changed after Start()
 	ResetCycle bool              `json:"reset_cycle,omitempty"`                     // configure, add a rule, Reset(), then add the real rules (multi-step API sequence)
 	Workers    int               `json:"workers"`
-	Resize     int               `json:"resize_to,omitempty"`     // >0: the pool of the running processor is resized (without waiting) before the events arrive
+	Resize     int               `json:"resize_to,omitempty"`      // >0: the pool of the running processor is resized (without waiting) before the events arrive
 	Settle     bool              `json:"resize_settled,omitempty"` // ... after its workers have gone to sleep
 	FailFirst  bool              `json:"fail_first"`
 	NKinds     int               `json:"kinds"`
